@@ -124,24 +124,35 @@ def check_month(y, m, n_first):
         Epoch(y, m, L)
     except Exception as ex:
         out.append(("accept", "Epoch(%d,%d,%d) rejected: %r" % (y, m, L, ex)))
-    # month spellings and container forms on the first day
+    # month spellings and container forms on the first and the last day, and
+    # rejection of day L+1 under every spelling
+    n_last = n_first + L - 1 - (10 if (y == 1582 and m == 10) else 0)
     for name, mv in month_forms(y, m):
         for ctor in ("args", "tuple", "list"):
-            try:
-                if ctor == "args":
-                    e = Epoch(y, mv, 1)
-                elif ctor == "tuple":
-                    e = Epoch((y, mv, 1))
-                else:
-                    e = Epoch([y, mv, 1])
-                j = e.jde()
-                g = e.get_date()
-            except Exception as ex:
-                out.append(("form", "Epoch(%d,%r,1) [%s] raised %r" % (y, mv, ctor, ex)))
-                continue
-            if j != n_first - 0.5 or g != (y, m, 1.0):
-                out.append(("form", "Epoch(%d,%r,1) [%s]: jde %r date %r, model %r"
-                            % (y, mv, ctor, j, g, n_first - 0.5)))
+            for dd, nn in ((1, n_first), (L, n_last)):
+                try:
+                    if ctor == "args":
+                        e = Epoch(y, mv, dd)
+                    elif ctor == "tuple":
+                        e = Epoch((y, mv, dd))
+                    else:
+                        e = Epoch([y, mv, dd])
+                    j = e.jde()
+                    g = e.get_date()
+                except Exception as ex:
+                    out.append(("form", "Epoch(%d,%r,%d) [%s] raised %r" % (y, mv, dd, ctor, ex)))
+                    continue
+                if j != nn - 0.5 or g != (y, m, float(dd)):
+                    out.append(("form", "Epoch(%d,%r,%d) [%s]: jde %r date %r, model %r"
+                                % (y, mv, dd, ctor, j, g, nn - 0.5)))
+        try:
+            Epoch(y, mv, L + 1)
+            out.append(("reject", "Epoch(%d,%r,%d) accepted, month has %d days" % (y, mv, L + 1, L)))
+        except ValueError:
+            pass
+        except Exception as ex:
+            out.append(("reject", "Epoch(%d,%r,%d) raised %r instead of ValueError"
+                        % (y, mv, L + 1, ex)))
     return out
 
 
@@ -150,7 +161,7 @@ def run_months(block, ctx):
         n = n0
         for m in range(1, 13):
             msgs = check_month(y, m, n)
-            ctx.evals += 8 + 1 + 24
+            ctx.evals += 8 + 1 + 48 + 8
             ctx.nt_count += 1
             ctx.states += 1
             ctx.transitions += 8   # rejected transitions out of the month
